@@ -353,15 +353,20 @@ def lspToA (lsp : List Float) : Array Float := Id.run do
     a := a.set! i (0.5 * (pp.getD i 0.0 + qq.getD i 0.0))
   return a
 
-def runC13 : P Verdict := do
+/-- `hist = false`: one frame, one pulse. `hist = true` (`C13h`): a lead-in frame with the same frequencies and another gain,
+    then the frame under test twice; the response is read from the third frame, where the coefficients stand still. -/
+def runC13g (hist : Bool) : P Verdict := do
   let c ← parseCase
   let w ← parseWave
   let k ← nat
   let m := runModel c
   let (corr, bo, ba) := diffWave 1e-6 m w
-  let (lf0, v, _) := c.frames.headD (0.0, [], [])
+  let (lf0, v, _) := if hist then c.frames.getD 2 (0.0, [], []) else c.frames.headD (0.0, [], [])
   let p := periodOf c.rate lf0
   let gain := if c.lg then Float.exp (v.headD 0.0) else v.headD 0.0
+  let w : Wave := match w with
+    | .ok ws => if hist then (if ws.length == 3 * c.fperiod then .ok ((ws.drop (2 * c.fperiod)).take c.fperiod) else .panic "wrong-number-of-samples") else .ok ws
+    | x => x
   let orc := match w with
     | .panic s => some s!"panicked at {s}"
     | .ok ws => Id.run do
@@ -408,8 +413,11 @@ def runC13 : P Verdict := do
     | some msg => if msg.startsWith "|H| deviates" then some s!"C13:f64-roundoff:{String.ofList (Nat.toDigits 16 fingerprint)}" else none
     | none => none
   pure { corr, oracle := orc, known, nontriv := true,
-         cls := s!"ord{if v.length ≤ 7 then "<=6" else "big"}:{if (v.length - 1) % 2 == 0 then "even" else "odd"}:s{c.stage}:a{if c.alpha == 0.0 then "0" else "x"}:{if c.lg then "log" else "lin"}:b{if c.beta == 0.0 then "0" else "x"}",
+         cls := s!"{if hist then "history:" else ""}ord{if v.length ≤ 7 then "<=6" else "big"}:{if (v.length - 1) % 2 == 0 then "even" else "odd"}:s{c.stage}:a{if c.alpha == 0.0 then "0" else "x"}:{if c.lg then "log" else "lin"}:b{if c.beta == 0.0 then "0" else "x"}",
          bitsOk := bo, bitsAll := ba }
+
+def runC13 : P Verdict := runC13g false
+def runC13h : P Verdict := runC13g true
 
 /-! ### C14 -/
 def runC14 : P Verdict := do
@@ -552,6 +560,7 @@ def run : P Verdict := do
   | "C06h" => runC06h
   | "C07" => runC07
   | "C13" => runC13
+  | "C13h" => runC13h
   | "C14" => runC14
   | "C14m" => runC14m
   | "C16" => runC16
